@@ -222,8 +222,45 @@ def s_present(F, res):
                 false_t = dict((v, x) for v, x in sw["targets"]).get(0)
                 if false_t is not None and (false_t == bi or cfg.dominates(false_t, bi)):
                     guarded = True
+            # (a') ... or of a comparison of its len() with a literal (`map.len() == 0`, `map.len() > 0`, `>= 1`)
+            if not guarded:
+                for bj, t in mir.calls(f):
+                    if not (t.get("callee") or "").endswith("::len") or not t["args"] or t["dest"]["p"]:
+                        continue
+                    same = any((o.kind == "local" and o.local in roots) for o in mir.provenance(f, du, t["args"][0])) or any(repr(o) in {repr(x) for r in roots for x in mir.provenance(f, du, {"l": r, "p": []})} for o in mir.provenance(f, du, t["args"][0]))
+                    if not same:
+                        continue
+                    L = t["dest"]["l"]
+                    for bk, sk, s3 in mir.stmts(f):
+                        r3 = s3["rv"]
+                        if r3["k"] != "binop" or r3["op"] not in ("Eq", "Ne", "Lt", "Le", "Gt", "Ge") or s3["lhs"]["p"]:
+                            continue
+                        pa, pb = mir.op_place(r3["a"]), mir.op_place(r3["b"])
+                        ca, cb = mir.op_const(r3["a"]), mir.op_const(r3["b"])
+                        if pa is not None and pa["l"] == L and cb is not None and "int" in cb:
+                            fn_ = lambda n, c=cb["int"], op=r3["op"]: {"Eq": n == c, "Ne": n != c, "Lt": n < c, "Le": n <= c, "Gt": n > c, "Ge": n >= c}[op]
+                        elif pb is not None and pb["l"] == L and ca is not None and "int" in ca:
+                            fn_ = lambda n, c=ca["int"], op=r3["op"]: {"Eq": c == n, "Ne": c != n, "Lt": c < n, "Le": c <= n, "Gt": c > n, "Ge": c >= n}[op]
+                        else:
+                            continue
+                        # the comparison separates "empty" from "not empty" exactly
+                        if fn_(0) == fn_(1) or fn_(1) != fn_(2) or fn_(2) != fn_(10 ** 6):
+                            continue
+                        nonempty_val = 1 if fn_(1) else 0
+                        swb = f["blocks"][bk]["t"]
+                        cur, hops = bk, 0
+                        while swb["k"] == "goto" and hops < 3:
+                            cur = swb["t"]
+                            swb = f["blocks"][cur]["t"]
+                            hops += 1
+                        if swb["k"] != "switch" or mir.op_place(swb["discr"]) is None or mir.op_place(swb["discr"])["l"] != s3["lhs"]["l"]:
+                            continue
+                        tg = dict((v, x) for v, x in swb["targets"])
+                        edge = tg.get(nonempty_val, swb["otherwise"])
+                        if edge is not None and (edge == bi or cfg.dominates(edge, bi)):
+                            guarded = True
             if guarded:
-                res.add([ok("S-PRESENT", key, w, "wrapped on the non-empty edge of `is_empty()`")])
+                res.add([ok("S-PRESENT", key, w, "wrapped on the non-empty edge of an emptiness test of the map (`is_empty()` / `len()` against a literal)")])
                 continue
             # (b) untouched payload of another Option
             from_some = False
